@@ -28,8 +28,8 @@ DictVals == {A("all"), A("none"), StrS("a"), StrS("b"), TupS(<<"b">>), TupS(<<"a
 FullAtoms == {A("all"), A("none")} \cup {StrS(x) : x \in Addrs}
              \cup {TupS(p) : p \in (PathsUpTo(2) \ {<<>>})} \cup {TupS(<<"a", "a", "b">>), TupS(<<"a", "b", "a">>)}
              \cup {DictS(d) : d \in UNION {[D -> DictVals] : D \in (SUBSET Addrs \ {{}})}}
-(* six positive atoms: used by the depth-2 exhaustive run (14 364 expressions), where complements arise by nesting anyway *)
-PosSmallAtoms == {A("all"), A("none"), StrS("a"), TupS(<<"a", "b">>), TupS(<<"b", "a">>), DictS([x \in {"a"} |-> StrS("b")])}
+(* four positive atoms: used by the depth-2 exhaustive run (3 280 expressions), where complements arise by nesting anyway *)
+PosSmallAtoms == {A("all"), StrS("a"), TupS(<<"a", "b">>), DictS([x \in {"a"} |-> StrS("b")])}
 Atoms == IF AtomKind = "small" THEN SmallAtoms ELSE IF AtomKind = "possmall" THEN PosSmallAtoms ELSE FullAtoms
 
 RECURSIVE SelsOfDepth(_)
